@@ -1,2 +1,189 @@
-(* Properties/C18.v — property theorems only. (stub) *)
+(* Properties/C18.v — Every iterator can be stopped early, cleanly, at any point.
+   Only statements; every proof is [exact <lemma>] (Proofs/TotalProofs.v, built on
+   the generic Proofs/IterProofs.v).
+
+   Model/Iter.v: a Go range-over-func iterator in continuation-passing style; the
+   run-time check of `for x := range it` ("range function continued iteration
+   after function for loop body returned false") is the status [PanicAfterStop]
+   of [range_loop].  Model/Iterators.v: the 18 iterators of the library, each
+   written as the composition the Go source has (iter_loop / guarded loop /
+   `range` wrapper with a guarded yield / the header-dropping wrapper of
+   sam.Reader / File = open + wrapper).
+   [run_until it p] is the consumer of the property:
+       n := 0; for x := range it { seen = append(seen, x); n++; if n == p { break } }
+   (p = 0: never stops).  [taken p items] = all items for p = 0, else the first p.
+   Each theorem says, for EVERY input and EVERY stop position p (also p beyond
+   the end, also exactly on an error item): the status is [Done] — no callback
+   after the stop, no panic — and what was seen is exactly the leading p items of
+   the uninterrupted run, which is named on the right-hand side by the format's
+   codec model (so "uninterrupted run" is the p = 0 instance of the same theorem).
+   For a File iterator [opened = false] is a path that aio.Open rejects: the
+   iteration is the single error item. *)
+From Coq Require Import String.
 From Bio Require Import Base.
+From Bio.Model Require Import Iter Iterators.
+From Bio.Model Require Fasta Fastq Sam Bed Newick Trie Seq.
+From Bio.Spec Require NewickSpec TrieSpec.
+From Bio.Proofs Require Import IterProofs TotalProofs.
+
+(* ---- fasta: reader.iter(), Reader, File -------------------------------------------------- *)
+Theorem C18_fasta_iter_stop_safe : forall p w t,
+  run_until (fasta_iter w t) p = (taken p (Fasta.decode w t), Done).
+Proof. exact fasta_iter_stop. Qed.
+Print Assumptions C18_fasta_iter_stop_safe.
+
+Theorem C18_fasta_reader_stop_safe : forall p w t,
+  run_until (fasta_reader w t) p = (taken p (Fasta.decode w t), Done).
+Proof. exact fasta_reader_stop. Qed.
+Print Assumptions C18_fasta_reader_stop_safe.
+
+Theorem C18_fasta_file_stop_safe : forall p opened w t,
+  run_until (fasta_file opened w t) p
+  = (taken p (if opened then Fasta.decode w t else [ErrItem]), Done).
+Proof. exact fasta_file_stop. Qed.
+Print Assumptions C18_fasta_file_stop_safe.
+
+(* ---- fastq --------------------------------------------------------------------------------- *)
+Theorem C18_fastq_iter_stop_safe : forall p w t,
+  run_until (fastq_iter w t) p = (taken p (Fastq.decode w t), Done).
+Proof. exact fastq_iter_stop. Qed.
+Print Assumptions C18_fastq_iter_stop_safe.
+
+Theorem C18_fastq_reader_stop_safe : forall p w t,
+  run_until (fastq_reader w t) p = (taken p (Fastq.decode w t), Done).
+Proof. exact fastq_reader_stop. Qed.
+Print Assumptions C18_fastq_reader_stop_safe.
+
+Theorem C18_fastq_file_stop_safe : forall p opened w t,
+  run_until (fastq_file opened w t) p
+  = (taken p (if opened then Fastq.decode w t else [ErrItem]), Done).
+Proof. exact fastq_file_stop. Qed.
+Print Assumptions C18_fastq_file_stop_safe.
+
+(* ---- bed ------------------------------------------------------------------------------------ *)
+Theorem C18_bed_reader_stop_safe : forall p w t,
+  run_until (bed_reader w t) p = (taken p (Bed.decode w t), Done).
+Proof. exact bed_reader_stop. Qed.
+Print Assumptions C18_bed_reader_stop_safe.
+
+Theorem C18_bed_file_stop_safe : forall p opened w t,
+  run_until (bed_file opened w t) p
+  = (taken p (if opened then Bed.decode w t else [ErrItem]), Done).
+Proof. exact bed_file_stop. Qed.
+Print Assumptions C18_bed_file_stop_safe.
+
+(* ---- newick Reader / File (the reader model has a Panic outcome: it is excluded here) ------- *)
+Theorem C18_newick_reader_stop_safe : forall p o w t,
+  exists items, Newick.decode o w t = Ok items /\
+    run_until (newick_reader o w t) p = (taken p items, Done).
+Proof. exact newick_reader_stop. Qed.
+Print Assumptions C18_newick_reader_stop_safe.
+
+Theorem C18_newick_file_stop_safe : forall p opened o w t,
+  exists items, Newick.decode o w t = Ok items /\
+    run_until (newick_file opened o w t) p
+    = (taken p (if opened then items else [ErrItem]), Done).
+Proof. exact newick_file_stop. Qed.
+Print Assumptions C18_newick_file_stop_safe.
+
+(* ---- sam: ReaderHeader goes on after a malformed line, so errors may be anywhere;
+        Reader passes errors on and drops headers ---------------------------------------------- *)
+Theorem C18_sam_reader_header_stop_safe : forall p o w t,
+  run_until (sam_reader_header o w t) p = (taken p (Sam.reader_header o w t), Done).
+Proof. exact sam_reader_header_stop. Qed.
+Print Assumptions C18_sam_reader_header_stop_safe.
+
+Theorem C18_sam_reader_stop_safe : forall p o w t,
+  run_until (sam_reader o w t) p = (taken p (Sam.reader o w t), Done).
+Proof. exact sam_reader_stop. Qed.
+Print Assumptions C18_sam_reader_stop_safe.
+
+Theorem C18_sam_file_stop_safe : forall p opened o w t,
+  run_until (sam_file opened o w t) p
+  = (taken p (if opened then Sam.reader o w t else [ErrItem]), Done).
+Proof. exact sam_file_stop. Qed.
+Print Assumptions C18_sam_file_stop_safe.
+
+Theorem C18_sam_file_header_stop_safe : forall p opened o w t,
+  run_until (sam_file_header opened o w t) p
+  = (taken p (if opened then Sam.reader_header o w t else [ErrItem]), Done).
+Proof. exact sam_file_header_stop. Qed.
+Print Assumptions C18_sam_file_header_stop_safe.
+
+(* ---- tree traversals: the leading nodes of the classic recursive orders (C19) ---------------- *)
+Theorem C18_pre_order_stop_safe : forall p tr,
+  run_until (pre_order tr) p = (taken p (NewickSpec.preorder tr), Done).
+Proof. exact pre_order_stop. Qed.
+Print Assumptions C18_pre_order_stop_safe.
+
+Theorem C18_post_order_stop_safe : forall p tr,
+  run_until (post_order tr) p = (taken p (NewickSpec.postorder tr), Done).
+Proof. exact post_order_stop. Qed.
+Print Assumptions C18_post_order_stop_safe.
+
+(* ---- trie.ForEach: leading items of the report, hence members, and distinct for a
+        well-formed trie; the stack loop with the stopping callback built in
+        (Trie.for_each_until of C15) sees exactly what the generic consumer sees --------------- *)
+Theorem C18_for_each_stop_safe : forall p tr,
+  run_until (for_each tr) p = (taken p (TrieSpec.members tr), Done)
+  /\ incl (taken p (TrieSpec.members tr)) (TrieSpec.members tr)
+  /\ (TrieSpec.wf tr -> NoDup (taken p (TrieSpec.members tr)))
+  /\ (p <> 0%nat -> Trie.for_each_until p tr = Ok (fst (run_until (for_each tr) p))).
+Proof. exact for_each_stop. Qed.
+Print Assumptions C18_for_each_stop_safe.
+
+(* ---- CanonicalSubsequences: wherever it does not panic (valid DNA and k >= 0, C12) ----------- *)
+Theorem C18_canonical_subsequences_stop_safe : forall p s k items, Seq.canon s k = Ok items ->
+  run_until (canonical_subsequences s k) p = (taken p items, Done).
+Proof. exact canonical_stop. Qed.
+Print Assumptions C18_canonical_subsequences_stop_safe.
+
+(* ---- an error item is the last item (FASTA, FASTQ, BED, Newick), for every input ------------- *)
+Theorem C18_error_is_last_fasta : forall w t, error_last (Fasta.decode w t).
+Proof. exact fasta_error_last. Qed.
+Print Assumptions C18_error_is_last_fasta.
+
+Theorem C18_error_is_last_fastq : forall w t, error_last (Fastq.decode w t).
+Proof. exact fastq_error_last. Qed.
+Print Assumptions C18_error_is_last_fastq.
+
+Theorem C18_error_is_last_bed : forall w t, error_last (Bed.decode w t).
+Proof. exact bed_error_last. Qed.
+Print Assumptions C18_error_is_last_bed.
+
+Theorem C18_error_is_last_newick : forall o w t,
+  exists items, Newick.decode o w t = Ok items /\ error_last items.
+Proof. exact newick_decode_ok. Qed.
+Print Assumptions C18_error_is_last_newick.
+
+(* [error_last] unfolded: nothing follows an error item *)
+Theorem C18_error_last_meaning : forall A (items : list (item A)),
+  error_last items <-> forall pre post, items = pre ++ ErrItem :: post -> post = [].
+Proof. exact @error_last_spec. Qed.
+Print Assumptions C18_error_last_meaning.
+
+(* ---- non-vacuity ------------------------------------------------------------------------------
+   The model can fail: the same FASTA Reader with its range body written
+   `yield(fa, err)` instead of `if !yield(fa, err) { break }` is caught at stop
+   position 1 of a two-record file (status PanicAfterStop), while the real
+   composition stops cleanly; stopping the broken one on the last item shows
+   nothing, which is why every position is quantified. *)
+Example C18_broken_adapter_is_caught :
+  run_until (fasta_reader_broken ex_fasta_text TEOF) 1
+    = ([Rec {| Fasta.name := [97]; Fasta.seq := [65] |}], PanicAfterStop)
+  /\ run_until (fasta_reader ex_fasta_text TEOF) 1
+    = ([Rec {| Fasta.name := [97]; Fasta.seq := [65] |}], Done)
+  /\ run_until (fasta_reader_broken ex_fasta_text TEOF) 2
+    = ([Rec {| Fasta.name := [97]; Fasta.seq := [65] |}; Rec {| Fasta.name := [98]; Fasta.seq := [67] |}], Done).
+Proof. exact broken_adapter_caught. Qed.
+
+(* stopping a SAM ReaderHeader exactly on the error of a malformed middle line, and a File
+   on a missing path *)
+Definition C18_no_floats : foracle := {| f_parse := []; f_fmt := [] |}.
+Example C18_sam_stop_on_error :
+  run_until (sam_reader_header C18_no_floats (bs "@h" ++ [LF] ++ bs "bad" ++ [LF] ++ bs "@k" ++ [LF]) TEOF) 2
+    = ([Rec (Sam.Hdr (bs "@h")); ErrItem], Done)
+  /\ run_until (sam_reader_header C18_no_floats (bs "@h" ++ [LF] ++ bs "bad" ++ [LF] ++ bs "@k" ++ [LF]) TEOF) 0
+    = ([Rec (Sam.Hdr (bs "@h")); ErrItem; Rec (Sam.Hdr (bs "@k"))], Done)
+  /\ run_until (sam_file false C18_no_floats [] TEOF) 1 = ([ErrItem], Done).
+Proof. vm_compute. repeat split. Qed.
